@@ -283,12 +283,21 @@ func (a *oauth2IntrospectionAuthenticator) getSubjectInformation(ctx heimdall.Co
 		return nil, err
 	}
 
+	// configured assertions take precedence over those available in the metadata
+	assertions := a.a.Merge(oauth2.Expectation{
+		TrustedIssuers: []string{metadata.Issuer},
+	})
+
 	if a.isCacheEnabled() {
 		cacheKey = a.calculateCacheKey(metadata.IntrospectionEndpoint, req.URL.String(), token)
 		if entry, err := cch.Get(ctx.AppContext(), cacheKey); err == nil {
-			logger.Debug().Msg("Reusing introspection response from cache")
+			// the cached response may have been stored by a rule with other assertions
+			var cachedResp oauth2.IntrospectionResponse
+			if err = json.Unmarshal(entry, &cachedResp); err == nil && cachedResp.Validate(assertions) == nil {
+				logger.Debug().Msg("Reusing introspection response from cache")
 
-			return entry, nil
+				return entry, nil
+			}
 		}
 	}
 
@@ -300,11 +309,6 @@ func (a *oauth2IntrospectionAuthenticator) getSubjectInformation(ctx heimdall.Co
 	if err != nil {
 		return nil, err
 	}
-
-	// configured assertions take precedence over those available in the metadata
-	assertions := a.a.Merge(oauth2.Expectation{
-		TrustedIssuers: []string{metadata.Issuer},
-	})
 
 	if err = introspectResp.Validate(assertions); err != nil {
 		return nil, errorchain.
